@@ -74,6 +74,28 @@ def step (_ : Unit) (line : String) : Unit × String :=
         | some o => showOptions o
         | none => "panic"
       | none => "bad-op"
+    | ["od", "cmp", a, b] =>
+      match parseOd a, parseOd b with
+      | some a, some b =>
+        let c := match OptionalDuration.cmp a b with | .lt => "lt" | .eq => "eq" | .gt => "gt"
+        s!"{c} max={odTok (OptionalDuration.max a b)} le={OptionalDuration.le a b}"
+      | _, _ => "bad-op"
+    | ["od", "cmpd", a, d] =>
+      match parseOd a, d.toNat? with
+      | some a, some d => (match OptionalDuration.cmpDuration a d with | .lt => "lt" | .eq => "eq" | .gt => "gt")
+      | _, _ => "bad-op"
+    | ["od", "from", ms] =>
+      match ms.toNat? with
+      | some ms => odTok (OptionalDuration.ofDuration ms)
+      | none => "bad-op"
+    | ["od", "str", t] =>
+      -- the harness says whether the text is a `u64` (`u:<value>`) or not (`x`): integer parsing is std's
+      (match t.splitOn ":" with
+       | ["u", v] => (match v.toNat? with
+          | some v => (match OptionalDuration.ofSecsText (some v) with | some o => "ok " ++ odTok o | none => "err")
+          | none => "bad-op")
+       | ["x"] => (match OptionalDuration.ofSecsText none with | some o => "ok " ++ odTok o | none => "err")
+       | _ => "bad-op")
     | "run" :: i :: t :: h :: rest :: extra :: delays =>
       match parseOd i, parseOd t, h.toNat?, parseOd rest, parseCsv extra, delays.mapM parseOd with
       | some i, some t, some h, some rest, some extra, some delays =>
